@@ -198,14 +198,24 @@ func c14Abandon(c *run.C) {
 	r := c.R
 	tg := gen.NewTypeGen(r, gen.GoTypeOpts{MaxDepth: 3, InlineStructOnly: true, Extra: zoo.Supported})
 	t := tg.Type(0)
+	// a sixth of the cases: an unfolder configured with user unfolders
+	// (gotype.Unfolders) and a target that reaches them; the new unfolder it
+	// is compared with has the same configuration
+	userMode := r.P(1, 6)
+	var uopts []gotype.UnfoldOption
+	if userMode {
+		uopts = append(uopts, gotype.Unfolders(zoo.UserUnfolders()...))
+		t = gen.Pick(r, zoo.UserTargets)
+		c.Observe("abandon_cases_with_user_unfolders", 1)
+	}
 	var s val.Stream
 	how := ""
-	if r.Bool() {
+	if r.Bool() || userMode {
 		// a matching document, so that abandoning happens deep inside
-		vg := &gen.ValueGen{R: r, O: gen.GoValueOpts{BadUTF8: true, SpecialF: true}}
+		vg := &gen.ValueGen{R: r, O: gen.GoValueOpts{BadUTF8: !userMode, SpecialF: !userMode}}
 		mv, err := model.Fold(vg.Value(t, 0), nil)
 		if err == nil {
-			em := &emitter{r: r, refs: true, extras: true, shuffle: true, floatInt: true}
+			em := &emitter{r: r, refs: true, extras: !userMode, shuffle: true, floatInt: true}
 			em.emit(mv)
 			s, how = em.out, "matching"
 		}
@@ -223,7 +233,7 @@ func c14Abandon(c *run.C) {
 	}
 	// what a brand-new unfolder makes of the probe
 	fresh := reflect.New(t)
-	uf, err := gotype.NewUnfolder(fresh.Interface())
+	uf, err := gotype.NewUnfolder(fresh.Interface(), uopts...)
 	if err != nil {
 		c.Observe("targets_refused", 1)
 		return
@@ -253,7 +263,7 @@ func c14Abandon(c *run.C) {
 		}
 		c.Begin(c14Case{Type: t.String(), How: how, Stream: s, K: k})
 		_, target, canary := canaryHolder(t)
-		u, err := gotype.NewUnfolder(target.Interface())
+		u, err := gotype.NewUnfolder(target.Interface(), uopts...)
 		if err != nil {
 			return
 		}
